@@ -28,8 +28,8 @@ def run_jobs(jobs, nproc=None, timeout_s=600, progress=None):
   nproc = nproc or int(os.environ.get('VERIF_NPROC', '0')) or min(
       16, os.cpu_count() or 4)
   ctx = mp.get_context('fork')
-  pending = list(enumerate(jobs))
-  pending.reverse()
+  pending = sorted(enumerate(jobs), key=lambda ij: ij[1].get('weight', 0))
+  # heaviest first (popped from the end)
   running = {}
   out = [None] * len(jobs)
   done = 0
